@@ -43,7 +43,7 @@ pub fn run_and_judge(
         } else {
             ev.worker_errors += 1;
         }
-        match judge::judge(judge_name, spec, &res, None, None) {
+        match judge::judge(judge_name, spec, &res, &[], &[]) {
             Ok(vs) => {
                 for v in vs {
                     // smallest session known to show it: the world named in `at`, alone (if worlds are independent)
@@ -56,7 +56,7 @@ pub fn run_and_judge(
                     } else {
                         spec.clone()
                     };
-                    reporter.candidate(v, judge_name, mini, None);
+                    reporter.candidate(v, judge_name, mini, vec![]);
                 }
             }
             Err(e) => {
